@@ -660,3 +660,22 @@ mod auto_tests {
             .is_empty_input());
     }
 }
+
+/// `EquiSpaced::new(..)` followed by `build()` and `n_bins()`.
+#[cfg(rust_ndarray_ndarray_stats_verif)]
+pub fn verif_equispaced<T>(bin_width: T, min: T, max: T) -> Result<(Bins<T>, usize), BinsBuildError>
+where
+    T: Ord + Clone + FromPrimitive + NumOps + Zero,
+{
+    let e = EquiSpaced::new(bin_width, min, max)?;
+    Ok((e.build(), e.n_bins()))
+}
+
+/// `EquiSpaced::new(..)` followed by `n_bins()`.
+#[cfg(rust_ndarray_ndarray_stats_verif)]
+pub fn verif_equispaced_n_bins<T>(bin_width: T, min: T, max: T) -> Option<usize>
+where
+    T: Ord + Clone + FromPrimitive + NumOps + Zero,
+{
+    EquiSpaced::new(bin_width, min, max).ok().map(|e| e.n_bins())
+}
